@@ -133,6 +133,9 @@ type Scenario struct {
 	Files []File   `json:"files,omitempty"`
 	// Stdin: nil = /dev/null
 	Stdin    *Bytes `json:"stdin,omitempty"`
+	// the working directory is a file system of its own with this capacity (a real tmpfs mount): room runs out
+	// for real, and the code under test can ask how much is left. 0 = the shared sandbox file system
+	DiskKiB int `json:"disk_kib,omitempty"`
 	// standard input is a pipe whose writer stays silent for this long before it delivers everything
 	// (a slow producer: the one place where real time passes, decided by the scenario)
 	StdinDelayMs int `json:"stdin_delay_ms,omitempty"`
